@@ -294,6 +294,100 @@ func space(first int) {
 	}
 }
 
+// twoRecordings: two in ports record into the same SMF at overlapping times
+// (SMF.RecordFrom twice); every track must hold exactly the channel messages
+// of its own port, in order.
+func twoRecordings() {
+	msgs := func(ch uint8) [][]byte {
+		return [][]byte{{0x90 | ch, 0x3C, 0x40}, {0x80 | ch, 0x3C, 0x00}, {0xC0 | ch, 0x05}}
+	}
+	for order := 0; order < 6; order++ {
+		ctx.Eval()
+		vtime.Reset()
+		var drv [2]*testdrv.Driver
+		var outs [2]drivers.Out
+		var ins [2]drivers.In
+		for i := range drv {
+			drv[i] = testdrv.New(fmt.Sprint("rec", i))
+			ii, _ := drv[i].Ins()
+			oo, _ := drv[i].Outs()
+			ins[i], outs[i] = ii[0], oo[0]
+			outs[i].Open()
+		}
+		file := smf.New()
+		var stops [2]func()
+		var err error
+		step := func(port int, k int) {
+			drv[port].Sleep(10 * time.Millisecond)
+			outs[port].Send(msgs(uint8(port))[k])
+		}
+		c := engine.Catch(func() {
+			stops[0], err = file.RecordFrom(ins[0], 120)
+			if err != nil {
+				return
+			}
+			step(0, 0)
+			stops[1], err = file.RecordFrom(ins[1], 120)
+			if err != nil {
+				return
+			}
+			// interleavings of the remaining sends
+			seqs := [][][2]int{
+				{{1, 0}, {0, 1}, {1, 1}, {0, 2}, {1, 2}},
+				{{0, 1}, {0, 2}, {1, 0}, {1, 1}, {1, 2}},
+				{{1, 0}, {1, 1}, {1, 2}, {0, 1}, {0, 2}},
+			}
+			for _, s := range seqs[order%3] {
+				step(s[0], s[1])
+			}
+			if order < 3 {
+				stops[0]()
+				stops[1]()
+			} else {
+				stops[1]()
+				stops[0]()
+			}
+		})
+		detail := map[string]interface{}{"kind": "two-recordings", "order": order}
+		if c.Panicked || err != nil {
+			detail["what"] = fmt.Sprintf("recording two ports into one file failed: %v %s", err, c.Value)
+			ctx.Violation("record:two-ports:failed", detail)
+			continue
+		}
+		if len(file.Tracks) != 2 {
+			detail["what"] = fmt.Sprintf("%d tracks after two recordings", len(file.Tracks))
+			ctx.Violation("record:two-ports:track-count", detail)
+			continue
+		}
+		seen := map[uint8]bool{}
+		for ti, t := range file.Tracks {
+			var ch uint8 = 0xFF
+			var got [][]byte
+			for _, e := range t {
+				m := e.Message
+				if len(m) > 0 && m[0] >= 0x80 && m[0] < 0xF0 {
+					if ch == 0xFF {
+						ch = m[0] & 0x0F
+					}
+					got = append(got, m)
+				}
+			}
+			want := msgs(ch & 1)
+			ok := ch <= 1 && !seen[ch] && len(got) == len(want)
+			for i := 0; ok && i < len(want); i++ {
+				ok = bytes.Equal(got[i], want[i])
+			}
+			seen[ch] = true
+			if !ok {
+				detail["what"] = fmt.Sprintf("track %d holds %X, its port sent %X", ti, got, want)
+				ctx.Violation("record:two-ports:content", detail)
+				break
+			}
+		}
+		ctx.Add("two_port_recordings", 1)
+	}
+}
+
 func main() {
 	ctx = engine.Start("C13", "exploration")
 	if ctx.ReplayPath != "" {
@@ -303,6 +397,7 @@ func main() {
 	ctx.Assume("which messages 'arrive' is decided by the reference receiver (DESIGN.md appendix A) fed with the bytes sent; whether non-channel messages are stored (as valid events) or dropped is not judged, only that the file stays valid")
 	ctx.Assume("timing tolerance: one tick per stored delta up to the message (each delta is rounded separately)")
 	ctx.Jobs("record", len(alphabet), func(j int) { space(j) })
+	ctx.Jobs("two-ports", 1, func(int) { twoRecordings() })
 	ctx.Set("message_alphabet", len(alphabet))
 	ctx.Set("tempi", tempi)
 	ctx.Set("gaps_ms", gaps)
